@@ -198,6 +198,8 @@ def run(ctx):
                 "literal / NULL / 0 / column / expression values; UPDATE with 1-5 assignments, FROM, WHERE; DELETE, DROP, CREATE VIEW / INDEX; schema-qualified and quoted names; the required tree is built by the generator; "
                 "distinct non-trivial = distinct statements" % (len(TYPES), len(OPTS)))
     ok, out = ctx.prove("Props.C19", THMS)
+    from props import casex
+    casex.insert_stage(ctx)
     known = ctx.finding_keys()
     rnd = ctx.rng("c19")
     d = D(rnd)
